@@ -248,8 +248,8 @@ fn run_exp_test_br(sh: &mut shell::Shell,
             let pairs_test: Vec<Pair<parsers::locust::Rule>> =
                 pair.into_inner().collect();
             let pair_test = &pairs_test[0];
-            let line = pair_test.as_str().trim();
-            let line_new = expand_args(line, &args[1..]);
+            let line = parsers::parser_line::trim_cmd(pair_test.as_str());
+            let line_new = expand_args(&line, &args[1..]);
             let mut _cr_list = execute::run_command_line(sh, &line_new, true, capture);
             if let Some(last) = _cr_list.last() {
                 if last.status == 0 {
@@ -409,7 +409,8 @@ fn run_exp(sh: &mut shell::Shell,
     let mut cr_list = Vec::new();
     let pairs = pair_in.into_inner();
     for pair in pairs {
-        let line = pair.as_str().trim();
+        let line = parsers::parser_line::trim_cmd(pair.as_str());
+        let line = line.as_str();
         if line.is_empty() {
             continue;
         }
